@@ -95,6 +95,23 @@ def check_z3_backend(repo: Repo, rep: Report) -> None:
         fde.FunctionValue(addc, ev, genv, self_obj=selfo)(c[:2])
         fde.FunctionValue(addc, ev, genv, self_obj=selfo)(c[2])
         got = selfo.attrs.get("converted_constraints")
+        # posted constraints that convert to Python constants, through add_constraint and then solve(): a False among them must end in
+        # "unsatisfiable" whatever z3 says about the rest (it is handed over like any other constraint, or answered at once)
+        for posting in ([[Tag("c0"), False]], [[False]], [Tag("c0"), False], [[True, Tag("c0")], False, [True]], [[Tag("c0"), True], [False, Tag("c1")]]):
+            ev2, genv2 = world({"__compare__": lambda op, a, b: _cmp(op, a, b), "z3.Bool": mk("Bool"), "z3.Int": mk("Int")})
+            ms2 = _MockSolver(Tag("z3.sat"), {})
+            ev2.funcs["z3.Solver"] = lambda ms2=ms2: ms2.obj
+            genv2["_convert_expr"] = lambda e, *a: Tag("conv:" + e.name) if isinstance(e, Tag) else e
+            self2 = mkself(name="self")
+            fde.FunctionValue(init, ev2, genv2, self_obj=self2)([])
+            for item in posting:
+                fde.FunctionValue(addc, ev2, genv2, self_obj=self2)(item)
+            r2 = fde.FunctionValue(solve, ev2, genv2, self_obj=self2)()
+            if not (r2 is False or any(x is False for x in ms2.added)):
+                rep.finding("Z3M-4", Z3_FILE, "Z3Backend.add_constraint", "constant-false constraint posted",
+                            f"after add_constraint of {posting!r} (items that convert to Python constants stay what they are) solve() hands z3 only "
+                            f"{ms2.added!r} and returns {r2!r} under the verdict sat: the constant False was dropped on the way", addc.lineno)
+                break
         if got == [Tag("conv:c0"), Tag("conv:c1"), Tag("conv:c2")]:
             rep.ok("Z3M-4", "add_constraint keeps every converted constraint, list and single forms, across calls")
         else:
